@@ -419,6 +419,11 @@ def check(run, res):
                     continue
                 if t_fatal is not None and t >= t_fatal - TOL:
                     continue
+                # what was still queued for an object when the watcher of its stream died of an unknown ERROR goes down with it
+                # ("while the watch is alive"): an event is demanded only if its object had nothing in flight at that moment
+                if (rkey, ns) in fatal and any(x['uid'] == uid and x['t0'] <= fatal[(rkey, ns)] + TOL and (x['t1'] is None or x['t1'] >= t - TOL) for x in calls) \
+                        and t >= fatal[(rkey, ns)] - 5.0:
+                    continue
                 if not processed(uid, rv, typ):
                     res.fail('C19/delivered-event-not-processed', f'{BUSINESS[rkey]}@{ns}: {typ} of {uid} rv={rv} was delivered at t={t} on a stream the client '
                              f'consumed, but was never processed')
@@ -453,7 +458,7 @@ def check(run, res):
                 if t_fatal is None:
                     res.fail('C19/stream-open-while-paused', f'a higher-priority peer is known since t={t0}, yet the stream of {BUSINESS[w.rkey]}@{w.namespace} opened at '
                              f't={w.opened_at} stayed open till {w.closed_at}')
-        if t1 is not None:
+        if t1 is not None and t1 - t0 > 0.5:      # (a pause shorter than the stated reaction time need not have closed anything)
             for key, rs in threads.items():
                 after = [r for r in rs if r['t'] >= t1 - TOL]
                 if after and 'list' not in after[0]['classes']:
